@@ -451,7 +451,23 @@ fn case_iter(rng: &mut Rng, replay: &str) -> (Verdict, u64) {
     }
     // the same bar, reset and wrapped around a second pass (a progress bar reused per file / per epoch):
     // the pass counts from zero and is finished by the same behaviour once more
-    if rng.chance(1, 2) {
+    if rng.chance(1, 4) {
+        // a second iterator over the same bar WITHOUT a reset (two sources chained onto one bar): the bar is
+        // finished already, the items still count
+        let base = pb.position();
+        let m = rng.range(1, 10);
+        let mut got = 0u64;
+        for _ in (0..m).progress_with(pb.clone()) {
+            got += 1;
+            calls += 1;
+            if pb.position() != base.wrapping_add(got) {
+                return (
+                    viol("position-not-items-yielded", "Iterator-on-finished-bar", format!("second iterator over the already finished bar: {got} items yielded, position moved from {base} to {}", pb.position()), w, replay.into()),
+                    calls,
+                );
+            }
+        }
+    } else if rng.chance(1, 2) {
         pb.reset();
         pb.set_message("");
         let m = rng.range(0, 10);
@@ -1082,7 +1098,7 @@ fn main() {
         let n = if thorough { 3_000_000 } else { 60_000 };
         run_parallel(n, workers(), |i| run_case(seed, i))
     };
-    let rule = "families in rotation: Read (read/read_vectored/read_exact/read_to_end on a scripted source with short reads, Interrupted, hard errors, zero-length transfers, EOF), BufRead (fill_buf / partial consume / read_line / read interleaved), Write (write/write_vectored/write_all/flush on a scripted sink), Seek (all three modes, rewind, stream_position on a Cursor that may start in the middle, with the bar occasionally moved from outside), Iterator (next/next_back/len/size_hint, every ProgressFinish, optionally a second pass over the reset bar), tokio AsyncRead/AsyncBufRead/AsyncWrite (write, flush and shutdown with distinct scripted outcomes, counted on the inner writer)/AsyncSeek and futures Stream polled by hand with scripted Pending, rayon pipelines (for_each, map-collect, zip, enumerate, rev, chunks, with_min_len, with_max_len, unindexed filter) on pools of 1-16 threads with 0-20000 items, and short-circuiting consumers (find_any/first/last, any, all, position_any, try_for_each, while_some, take_any, try_reduce; indexed and unindexed source; position compared with an upstream counting stage); every call is mirrored on a bare twin; distinct = (seed, index)";
+    let rule = "families in rotation: Read (read/read_vectored/read_exact/read_to_end on a scripted source with short reads, Interrupted, hard errors, zero-length transfers, EOF), BufRead (fill_buf / partial consume / read_line / read interleaved), Write (write/write_vectored/write_all/flush on a scripted sink), Seek (all three modes, rewind, stream_position on a Cursor that may start in the middle, with the bar occasionally moved from outside), Iterator (next/next_back/len/size_hint, every ProgressFinish, optionally a second pass over the reset bar, or a second iterator over the finished bar without a reset), tokio AsyncRead/AsyncBufRead/AsyncWrite (write, flush and shutdown with distinct scripted outcomes, counted on the inner writer)/AsyncSeek and futures Stream polled by hand with scripted Pending, rayon pipelines (for_each, map-collect, zip, enumerate, rev, chunks, with_min_len, with_max_len, unindexed filter) on pools of 1-16 threads with 0-20000 items, and short-circuiting consumers (find_any/first/last, any, all, position_any, try_for_each, while_some, take_any, try_reduce; indexed and unindexed source; position compared with an upstream counting stage); every call is mirrored on a bare twin; distinct = (seed, index)";
     let mut j = report.to_json("C17", rule, false);
     j.set("wall_s", t0.elapsed().as_secs_f64());
     j.set("seed", seed);
